@@ -52,7 +52,7 @@ func c01Case(t *testing.T, root *vw.Rng, ci int, tr *vw.Trace) {
 	if wide {
 		// many client operations are needed before the cache has a gap and a write spans it: longer
 		// schedules, milder faults (every failed operation empties the cache)
-		steps = vw.Scale(r.Range(60, 120), r.Range(100, 300))
+		steps = vw.Scale(r.Range(40, 90), r.Range(100, 300))
 		d.W.PLose, d.W.PFail, d.W.PReplyLose = d.W.PLose/2, d.W.PFail/2, d.W.PReplyLose/2
 		d.W.Read = 14
 	}
@@ -64,7 +64,7 @@ func c01Case(t *testing.T, root *vw.Rng, ci int, tr *vw.Trace) {
 		if wide {
 			// a burst of client operations delivered without faults: the blob gets its tracts and the
 			// clients' caches get entries for tracts far apart before the next random round
-			d.Burst(r.Range(10, 24))
+			d.Burst(r.Range(15, 35))
 		}
 		d.RunRandom(steps / rounds)
 		if r.Chance(1, 2) {
